@@ -110,8 +110,8 @@ def run(prop: str, tier: str) -> int:
     backends = [("numpy", "64b")]
     if tier == "thorough":
         backends += [("jax", "64b"), ("pytorch", "64b"), ("tensorflow", "64b"), ("numpy", "32b"), ("pytorch", "32b")]
-    else:
-        backends += [[("pytorch", "64b"), ("jax", "64b"), ("tensorflow", "64b")][sd % 3]]
+    else:   # every backend in every run (small seeded samples + every rare case, see below)
+        backends += [("pytorch", "64b"), ("jax", "64b"), ("tensorflow", "64b")]
     # C01's text covers "batched or not": its replay includes the batched rows as well
     props = {"C01": ["C01", "C10"], "C02": ["C02"], "C10": ["C10"], "C12": ["C12", "C01"]}[prop]
     accept = {"C01": {"C01", "C10"}, "C02": {"C02"}, "C10": {"C10"}, "C12": {"C12"}}[prop]
@@ -121,16 +121,20 @@ def run(prop: str, tier: str) -> int:
     for bi, (be, prec) in enumerate(backends):
         use = lines
         if bi > 0:   # secondary backends get a seeded sample (import + per-model compile cost)
-            frac_keep = {"quick": 0.08, "thorough": 0.25}[tier] * (0.3 if be in ("jax", "tensorflow") else 1.0)
+            frac_keep = {"quick": 0.05, "thorough": 0.25}[tier] * (0.3 if be in ("jax", "tensorflow") else 1.0)
             import json
             keep = {}
             sel = []
+            rare = 0
             for ln in lines:
                 c = json.loads(ln)
                 k = (json.dumps(c["spec"], sort_keys=True), c["sid"])
                 if k not in keep:
                     keep[k] = rnd.random() < frac_keep
-                if keep[k]:
+                # rare strata go to every backend: an expected rate that is exactly zero (the limit cases of the Poisson term)
+                is_rare = any(t["lam"][0] == 0 for t in c["terms"]["main"]) and rare < 400
+                rare += is_rare
+                if keep[k] or is_rare:
                     sel.append(ln)
             use = sel
         chunks, nspecs = group_chunks(use, 64 if bi == 0 else 16)
